@@ -55,8 +55,8 @@ class ConfigTargetVisibility(object):
     def __init__(self, kconfig, target):
         # target actually is not necessary here because kconfiglib.expr_value() will evaluate it internally
         self.kconfig = kconfig
-        self.visibility = dict()  # node name to (x, y) mapping where x is the visibility (True/False) and y is the
-        # name of the config which implies the visibility
+        self.visibility = dict()  # item (Symbol / Choice) to (x, y) mapping where x is the visibility (True/False) and
+        # y is the name of the config which implies the visibility
         self.target_env_var = "IDF_TARGET"
         self._constants_cache = dict()  # symbol name -> bool, memoizes _is_item_target_constant across the recursion
 
@@ -162,7 +162,9 @@ class ConfigTargetVisibility(object):
             return (False, None)
         if type(node.item) is kconfiglib.Symbol or type(node.item) is kconfiglib.Choice:
             dependencies = node.item.direct_dep  # "depends on" for configs
-            name_id = node.item.name
+            # Cache key: the item itself, not its name. Choices without a name all have the name None and would share one
+            # entry, and a menu titled like an option would pick up the option's entry in the lookup below.
+            name_id = node.item
             simple_def = len(node.item.nodes) <= 1  # defined only in one source file
             # Probably it is not necessary to check the default statements.
         else:
